@@ -191,6 +191,18 @@ class CBMMFamily(Family):
         return np.take_along_axis(vec, idx[..., None, None], axis=-1)[..., 0]
 
 
+def fixed_covariance(scale, covariance_type, lead, K, E):
+    """the documented option `fixed_covariance` of GMMTrainer / GCACGMMTrainer: `scale`·identity for every class, in the
+    shape the Gaussian class of `covariance_type` stores ((*lead, K, E, E) / (*lead, K, E) / (*lead, K))"""
+    if scale is None:
+        return None
+    if covariance_type == 'full':
+        return np.broadcast_to(scale * np.eye(E), tuple(lead) + (K, E, E)).copy()
+    if covariance_type == 'diagonal':
+        return np.full(tuple(lead) + (K, E), float(scale))
+    return np.full(tuple(lead) + (K,), float(scale))
+
+
 class GMMFamily(Family):
     complex_obs = False
 
@@ -203,7 +215,12 @@ class GMMFamily(Family):
                     covariance_type=self.covariance_type)
 
     def _setup(self, data, init, iterations, opts):
-        return GMMTrainer(), (data['y'],), dict(initialization=init, iterations=iterations, **self._kw(opts))
+        y = data['y']
+        fc = fixed_covariance(opts.get('fixed_covariance'), self.covariance_type, y.shape[:-2], np.shape(init)[-2], y.shape[-1])
+        kw = self._kw(opts)
+        if fc is not None:
+            kw['fixed_covariance'] = fc
+        return GMMTrainer(), (y,), dict(initialization=init, iterations=iterations, **kw)
 
     def continued(self, data, model, opts):
         return self.fit(data, model.predict(data['y']), 1, opts)
@@ -264,7 +281,11 @@ class GCACGMMFamily(_Integration):
                     spatial_weight=opts.get('spatial_weight', 1.), spectral_weight=opts.get('spectral_weight', 1.))
 
     def _setup(self, data, init, iterations, opts):
-        return GCACGMMTrainer(), (data['y'], data['e']), dict(initialization=init, iterations=iterations, **self._kw(opts))
+        fc = fixed_covariance(opts.get('fixed_covariance'), self.covariance_type, (), np.shape(init)[-2], data['e'].shape[-1])
+        kw = self._kw(opts)
+        if fc is not None:
+            kw['fixed_covariance'] = fc
+        return GCACGMMTrainer(), (data['y'], data['e']), dict(initialization=init, iterations=iterations, **kw)
 
     def log_pdf(self, model, data):
         """joint component log density: cACG(y) + Gaussian(e) (unit stream weights)"""
